@@ -10,7 +10,7 @@ observation of the resources the property speaks about:
 Protocol (first line of a case is always `new`):
     new <wrapper> <tool> <nseq> <seqkind>     wrapper: base local clustalo muscle3 muscle5 mafft
                                               tool: ok reorder garbage_empty garbage_ragged garbage_missing
-                                                    garbage_tree exit3 hang missing
+                                                    garbage_length garbage_tree exit3 hang missing
     start | join - | join t | cancel | state | tick | call <method>
 `tick` is the environment event "the external program is allowed to finish now" (the fake tools block on a gate
 file so that *when* the child exits is decided by the history, not by the scheduler).
@@ -30,7 +30,7 @@ EXT_MODULES = []
 GEN_FILES = ["BiotiteModel/Gen/C20.lean"]
 RULE = ("histories (<= 6 calls quick, <= 8 thorough) of start/join/join(timeout)/cancel/get_app_state/setters/getters "
         "+ the environment event `tick`, over 6 wrapper kinds (Application stub, LocalApp, ClustalO, MUSCLE3, MUSCLE5, "
-        "MAFFT) x 9 scripted behaviours of the external program (ok, reordered, 4 kinds of garbage, exit 3, hang, "
+        "MAFFT) x 10 scripted behaviours of the external program (ok, reordered, 5 kinds of garbage, exit 3, hang, "
         "missing binary) x protein/nucleotide/custom-alphabet inputs; half template-based (every way a run can end), "
         "half random; the bare Application stub additionally gets all histories up to length 3 (thorough: 4). "
         "non-trivial = the history contains a start; distinct = different (new line, op list)")
@@ -53,7 +53,8 @@ LEVEL_NOTE = ("trusted: OS/subprocess/tempfile, fake tools, FASTA/Newick parsers
 TECHNIQUE = "Lean 4 proof (invariant over all histories of a state machine) + regenerated guard table + correspondence"
 
 WRAPPERS = ["base", "local", "clustalo", "muscle3", "muscle5", "mafft"]
-TOOLS = ["ok", "reorder", "garbage_empty", "garbage_ragged", "garbage_missing", "garbage_tree", "exit3", "hang", "missing"]
+TOOLS = ["ok", "reorder", "garbage_empty", "garbage_ragged", "garbage_missing", "garbage_length", "garbage_tree", "exit3",
+         "hang", "missing"]
 SEQKINDS = ["prot", "nuc", "generic"]
 TIMEOUT = 0.05
 
@@ -342,7 +343,7 @@ class _Session:
         seqs = []
         for i in range(self.nseq):
             n = 3 + (i * 2 + self.nseq) % 4
-            text = "".join(pool[(i * 7 + j * 3 + self.nseq) % len(pool)] for j in range(n))
+            text = "".join(pool[(i * 7 + j * (i + 1) + j * j + self.nseq) % len(pool)] for j in range(n))
             if self.seqkind == "prot":
                 seqs.append(ProteinSequence(text))
             elif self.seqkind == "nuc":
@@ -441,7 +442,7 @@ class _Session:
             return "none"
         st = _proc_state(p.pid)
         if st == "alive" and wait_dead:
-            end = time.time() + 1.0
+            end = time.time() + 0.3
             while st == "alive" and time.time() < end:
                 time.sleep(0.003)
                 st = _proc_state(p.pid)
@@ -568,7 +569,10 @@ class _Session:
                 name = w[1]
                 val = self.call_method(name)
                 if name == "get_alignment":
-                    got = self._row_strings(val)
+                    try:
+                        got = self._row_strings(val)
+                    except Exception:  # noqa: BLE001  (a trace that does not fit the sequences cannot be rendered)
+                        return "ok r!invalid"
                     rows = self.tool_rows() or []
                     by_header = {h: s for h, s in rows}
                     return "ok " + ",".join(("r" + str(i)) if by_header.get(str(i)) == g else "r?" for i, g in enumerate(got))
@@ -731,6 +735,9 @@ def oracle(case):
                 exp = "ok " + ",".join(h for h, _ in rows)
                 if res != exp:
                     v.append(("C20/result/order-differs-from-tool-output", f"{res} expected {exp}"))
+            if (name == "join" and res == "ok" and wrapper not in ("base", "local")
+                    and tool in ("garbage_empty", "garbage_missing", "garbage_ragged", "garbage_length")):
+                v.append((f"C20/result/garbage-accepted/{tool}", f"join() succeeded although the program's output was {tool} ({case['ops']})"))
             # how runs end
             if not refused:
                 if name == "start" and res != "ok":
@@ -779,7 +786,7 @@ def oracle(case):
 # ---------------------------------------------------------------- generator
 def _new_line(rng, wrapper=None, tool=None):
     wrapper = wrapper or rng.choice(WRAPPERS)
-    tool = tool or rng.choice(TOOLS)
+    tool = tool or rng.choice(TOOLS + ["ok", "ok", "reorder"])
     if wrapper in ("muscle3", "muscle5") and tool == "missing":
         # get_version() in __init__ already fails: still a valid (construction-only) case, keep a few
         pass
